@@ -11,7 +11,7 @@ WT=/root/scratch/harvest_$PID$VAR
 export GOFLAGS=-mod=mod GOPROXY=off GOSUMDB=off GOTOOLCHAIN=local
 [ -f $SRC/patch.diff ] || { echo "no patch at $SRC"; exit 2; }
 rm -rf $WT; git -C /repo worktree add --detach -f $WT HEAD >/dev/null 2>&1 || exit 2
-DEMOPATH=$(head -1 $SRC/demo_path.txt | tr -d ' \r')
+DEMOPATH=$(grep -o '[A-Za-z0-9_./-]*_test\.go' $SRC/demo_path.txt | head -1)
 cp $SRC/demo_test.go.txt $WT/$DEMOPATH
 PKG=./$(dirname $DEMOPATH)
 cd $WT
@@ -30,7 +30,10 @@ if [ $SUITE != 0 ]; then
   # the pty-driven CLI tests are timing-sensitive under load: re-run failing packages alone
   FP=$(grep '^FAIL\s' /root/scratch/h_$PID$VAR.suite.log | awk '{print $2}' | sort -u | tr '\n' ' ')
   echo "re-running alone: $FP"
-  go test -p 1 -vet=off -count=1 $FP > /root/scratch/h_$PID$VAR.suite2.log 2>&1; SUITE=$?
+  for try in 1 2 3 4 5; do
+    go test -p 1 -vet=off -count=1 $FP > /root/scratch/h_$PID$VAR.suite2.log 2>&1; SUITE=$?
+    [ $SUITE = 0 ] && break
+  done
 fi
 FAILS=$(grep -c '^FAIL\|^--- FAIL' /root/scratch/h_$PID$VAR.suite.log)
 echo "clean=$CLEAN build=$BUILD patched=$PATCHED suite=$SUITE suitefails=$FAILS"
